@@ -192,6 +192,8 @@ func (h *handler) Handle(ctx context.Context) {
 		sendMsg: h.sendMsg,
 	}
 
+	var discarding chan struct{}
+
 	for ctx.Err() == nil {
 		select {
 		case <-ctx.Done():
@@ -214,6 +216,21 @@ func (h *handler) Handle(ctx context.Context) {
 			}
 
 		case err := <-h.disconnectChan:
+			// Nothing is handled from here on. What the receiver and the
+			// session's frame worker still hand over is discarded, so that
+			// neither stays blocked on a full queue: leaving the session waits
+			// for the frame worker, and Handle waits for the receiver.
+			discarding = make(chan struct{})
+			go func(stop <-chan struct{}) {
+				for {
+					select {
+					case <-stop:
+						return
+					case <-h.consumer.Messages():
+					}
+				}
+			}(discarding)
+
 			h.handleDisconnect(err)
 			if ctx.Err() == nil {
 				// cancel context so go routines can cleanly exit
@@ -223,6 +240,10 @@ func (h *handler) Handle(ctx context.Context) {
 	}
 
 	wg.Wait()
+
+	if discarding != nil {
+		close(discarding)
+	}
 }
 
 func (h *handler) send(protoMsg hwebsocket.ProtoMsg) {
@@ -247,15 +268,23 @@ func (h *handler) startSending(ctx context.Context) {
 		}
 	}()
 
+	failed := false
 	for {
 		select {
 		case <-ctx.Done():
 			return
 
 		case msg := <-h.sendChan:
+			if failed {
+				// The connection is broken. Messages are discarded until the
+				// main loop has ended the connection, so that nobody stays
+				// blocked on a full sendChan.
+				continue
+			}
+
 			if _, err := h.sender(msg); err != nil {
 				h.disconnect(errors.New("sending message failed").Wrap(err))
-				return
+				failed = true
 			}
 		}
 	}
